@@ -396,7 +396,9 @@ func (a *admWorld) famB(c ACase) ALine {
 		meta["labels"] = labels
 	}
 	spec := map[string]interface{}{"configName": c.CfgName}
-	if c.Policy != "" {
+	if c.Policy == "sa" { // a startPolicy that only postpones the Job (what `furiko run --at` submits): no concurrency policy given
+		spec["startPolicy"] = map[string]interface{}{"startAfter": "2033-05-18T03:33:20Z"}
+	} else if c.Policy != "" {
 		spec["startPolicy"] = map[string]interface{}{"concurrencyPolicy": c.Policy}
 	}
 	if c.OptVal {
@@ -727,7 +729,30 @@ func (a *admWorld) famP(c ACase) ALine {
 		jc.Spec.Template.Annotations = map[string]string{"note": "copied"}
 	}
 	jc.UID = ""
-	_, err := a.w.API.Direct("user", ktesting.NewCreateAction(sw.JobConfigsGVR, ns, jc))
+	var err error
+	if c.Op == "UPDATE" {
+		// the JobConfig exists with a valid schedule; the case's schedule arrives as an update of it
+		first := jc.DeepCopy()
+		first.Spec.Schedule = &execution.ScheduleSpec{Cron: &execution.CronSchedule{Expression: "*/5 * * * *", Timezone: "UTC"}}
+		if _, cerr := a.w.API.Direct("user", ktesting.NewCreateAction(sw.JobConfigsGVR, ns, first)); cerr != nil {
+			line.Err = "setup: " + cerr.Error()
+			line.Flags["accepted"] = false
+			return line
+		}
+		for a.w.Inf.JobConfigs.Deliver() {
+		}
+		defer func() {
+			_, _ = a.w.API.Direct("user", ktesting.NewDeleteAction(sw.JobConfigsGVR, ns, jc.Name))
+			for a.w.Inf.JobConfigs.Deliver() {
+			}
+		}()
+		upd := a.w.API.Get("jobconfigs", ns, jc.Name).(*execution.JobConfig).DeepCopy()
+		upd.Spec.Schedule = jc.Spec.Schedule
+		upd.ResourceVersion = ""
+		_, err = a.w.API.Direct("user", ktesting.NewUpdateAction(sw.JobConfigsGVR, ns, upd))
+	} else {
+		_, err = a.w.API.Direct("user", ktesting.NewCreateAction(sw.JobConfigsGVR, ns, jc))
+	}
 	line.Flags["accepted"] = err == nil
 	if err != nil {
 		line.Err = err.Error()
